@@ -199,6 +199,8 @@ def run(ctx):
     # from a BufReader takes over its buffered bytes and reads on from the inner source, not through the BufReader
     # (whose refills are sized by its own capacity): C02-R6
     c02.run_r6(ctx, r6)
+    # ... in reads of the size the caller configured (the setter stores its parameter, the library installs nothing else): C02-R9
+    c02.run_r9(ctx, r6)
 
     ctx.extra["exhaustive"] = True
     ctx.assume("DeferredReader::request_byte_at_offset returns the byte at that offset or None at the end of the available data (C02)")
